@@ -88,11 +88,13 @@ func (ln *listener) Accept() (net.Conn, error) {
 
 // Close implements Listener.
 func (ln *listener) Close() error {
-	if ln.fd != 0 {
-		syscall.Close(ln.fd)
-	}
+	// ln.fd is the descriptor owned by ln.file (see parseFD): it must be closed once, through
+	// its owner. Closing the raw number first and the file afterwards closes the number twice,
+	// and the second close hits whoever has been given the number in between.
 	if ln.file != nil {
 		ln.file.Close()
+	} else if ln.fd != 0 {
+		syscall.Close(ln.fd)
 	}
 	if ln.ln != nil {
 		ln.ln.Close()
